@@ -15,7 +15,7 @@ use serde_json::{json, Value};
 use crate::report::{Ctx, Report};
 use crate::util;
 
-const CMDS: [&str; 4] = ["vrps", "validate", "update", "server"];
+const CMDS: [&str; 5] = ["vrps", "vrps-dirty", "validate", "update", "server"];
 
 fn bin() -> PathBuf {
     std::env::var_os("VERIF_BIN").map(PathBuf::from).unwrap_or_else(|| {
@@ -45,14 +45,22 @@ fn sequences(max_len: usize) -> Vec<String> {
 struct Obs { runs: usize, exit: Option<i32>, killed: bool, wall_ms: u128 }
 
 fn run_one(dir: &Path, cmd: &str, seq: &str) -> Result<Obs, String> {
+    // "vrps-dirty": vrps on a cache whose sanitizing fails (a truncated
+    // RRDP archive file), the second fault the retry path can meet.
+    let (cmd, dirty) = if cmd == "vrps-dirty" { ("vrps", true) } else { (cmd, false) };
     let _ = fs::remove_dir_all(dir);
     fs::create_dir_all(dir.join("cache")).map_err(|e| e.to_string())?;
+    if dirty {
+        let d = dir.join("cache").join("rrdp").join("rrdp.example.net");
+        fs::create_dir_all(&d).map_err(|e| e.to_string())?;
+        fs::write(d.join("truncated.bin"), b"").map_err(|e| e.to_string())?;
+    }
     fs::create_dir_all(dir.join("tals")).map_err(|e| e.to_string())?;
     let conf = dir.join("routinator.conf");
     fs::write(&conf, format!(
         "repository-dir = \"{}\"\nno-rir-tals = true\nextra-tals-dir = \"{}\"\n\
-         disable-rsync = true\ndisable-rrdp = true\nrefresh = 1\n",
-        dir.join("cache").display(), dir.join("tals").display()
+         disable-rsync = true\ndisable-rrdp = {}\nrefresh = 1\n",
+        dir.join("cache").display(), dir.join("tals").display(), !dirty
     )).map_err(|e| e.to_string())?;
     let log = dir.join("runs.log");
     let mut c = Command::new(bin());
@@ -107,6 +115,8 @@ fn judge(cmd: &str, seq: &str, o: &Obs) -> Result<String, (String, String)> {
         let last_ok = outcome_of(o.runs - 1) == 'o';
         match (last_ok, o.exit) {
             (true, Some(0)) => Ok(format!("{cmd}:runs={}:exit=0", o.runs)),
+            // On the damaged cache an unforced run may fail for real.
+            (true, Some(_)) if cmd == "vrps-dirty" => Ok(format!("{cmd}:runs={}:exit=err-unforced", o.runs)),
             (false, Some(c)) if c != 0 => Ok(format!("{cmd}:runs={}:exit=err", o.runs)),
             (true, e) => v("failed-although-run-succeeded", format!("exit status {e:?}")),
             (false, e) => v("success-status-after-failed-run", format!("exit status {e:?} although the last run failed")),
@@ -160,10 +170,16 @@ pub fn run(ctx: &Ctx) -> Report {
     let mut rep = Report::new("fault_enumeration");
     let max_len = if ctx.tier.thorough() { 4 } else { 3 };
     let seqs = sequences(max_len);
+    // the server's retry state spans more runs: one more step for it
+    let server_seqs = sequences(max_len + 1);
     let mut cases: Vec<(&str, String)> = Vec::new();
-    for cmd in CMDS { for s in &seqs { cases.push((cmd, s.clone())) } }
+    for cmd in CMDS {
+        for s in if cmd == "server" { &server_seqs } else { &seqs } { cases.push((cmd, s.clone())) }
+    }
     rep.rule = format!("the real routinator binary (current tree, \
-        verification cfg) run as vrps / validate / update / server with \
+        verification cfg) run as vrps / vrps on a cache whose \
+        sanitizing fails (truncated RRDP archive) / validate / update / \
+        server (one more step) with \
         every sequence of forced validation run outcomes over {{success, \
         retryable failure, fatal failure}} of length 1..{max_len} (runs \
         beyond the sequence succeed); observed: number of runs started, \
@@ -173,7 +189,7 @@ pub fn run(ctx: &Ctx) -> Report {
         terminate; the server stops at a fatal failure and at the second \
         retryable failure of a regular run at the latest, never with \
         status 0; non-trivial = sequences with at least one failure");
-    rep.bound = format!("{} commands x {} outcome sequences (length <= {max_len})", CMDS.len(), seqs.len());
+    rep.bound = format!("{} one-shot command variants x {} outcome sequences (length <= {max_len}) + server x {} sequences (length <= {})", CMDS.len() - 1, seqs.len(), server_seqs.len(), max_len + 1);
     let threads = 16;
     let res = util::par_map(cases.len() as u64, threads, |i| {
         let (cmd, seq) = &cases[i as usize];
